@@ -446,7 +446,8 @@ def oracle_c13_stats(ctx):
         shape = (int(rs.randint(2, 5)), int(rs.randint(1, 4))) + tuple(int(rs.randint(1, 4)) for _ in range(rank - 2))
         C = shape[1]
         aff = rs.randint(0, 2)
-        case = {"oracle": "c13", "x": (rs.standard_normal(shape) * 2 + rs.uniform(-3, 3)).tolist(),
+        off = 2e5 * float(rs.choice([-1, 1])) if k % 4 == 0 else rs.uniform(-3, 3)      # every 4th batch is uncentred: |mean|/std = 1e5
+        case = {"oracle": "c13", "x": (rs.standard_normal(shape) * 2 + off).tolist(),
                 "running_mean": rs.uniform(-2, 2, C).tolist(), "running_var": rs.uniform(0.3, 3, C).tolist(),
                 "weight": rs.uniform(-2, 2, C).tolist() if aff else None, "bias": rs.uniform(-2, 2, C).tolist() if aff else None,
                 "training": bool(rs.randint(0, 2)), "momentum": float(rs.choice([0.1, 0.3, 0.9])), "eps": float(rs.choice([1e-5, 1e-3, 0.1]))}
